@@ -558,6 +558,14 @@ func Normalise(t *Type, v V) V {
 				continue
 			}
 			nv := Normalise(f.Type, fv)
+			if f.Req == idl.ReqOptional && f.HasDef && f.Type.Kind == Double {
+				// the generated IsSet compares with Go's !=, for which -0 equals 0
+				if a, ok := nv.(float64); ok {
+					if b, ok := f.Default.(float64); ok && a == b {
+						continue
+					}
+				}
+			}
 			if f.Req == idl.ReqOptional && f.HasDef && (Equal(nv, Normalise(f.Type, f.Default)) || Equal(nv, Normalise(f.Type, WireForm(f.Type, f.Default, 0)))) {
 				continue
 			}
